@@ -155,10 +155,25 @@ pub fn corr_sets_nohash(ctx: &mut Ctx) {
         let mut seen = std::collections::HashSet::new();
         let push = |x: u64, items: &mut Vec<u64>, seen: &mut std::collections::HashSet<u64>| { if seen.insert(x) { items.push(x); } };
         if c % 3 == 0 { push(ext[(c as usize / 3) % ext.len()], &mut items, &mut seen); }
+        // one case in four: STRUCTURED ids - small consecutive integers (hashes that differ only in their high bytes after the hasher's
+        // byte swap), sharded ids (shard << 48 | local), ids sharing their low 32 / low 44 bits
+        let structured = c % 4 == 3;
+        let base = rng.next();
+        let mut tick = 0u64;
         while items.len() < n {
+            tick += 1;
             if c % 3 == 1 && items.len() == n / 2 { push(ext[(c as usize / 3) % ext.len()], &mut items, &mut seen); continue; }
-            push(rng.next(), &mut items, &mut seen);
+            let k = tick;       // (a counter of its own: the candidate must change even when the previous one was a duplicate)
+            let x = if !structured { rng.next() } else { match (c / 4) % 4 {
+                0 => k + 1,                                             // 1, 2, 3, ...
+                1 => ((k % 0xffff) << 48) | (base & 0xffff_ffff),       // same low 32 bits, different shard
+                2 => (k << 44) | (base & 0xfff_ffff_ffff),              // same low 44 bits
+                _ => ((k + 1) << 56) | (base >> 8),                     // same low 56 bits
+            } };
+            push(x, &mut items, &mut seen);
+            if structured { let y = x.swap_bytes(); if items.len() < n { push(y, &mut items, &mut seen); } }   // and the same pattern on the hash side
         }
+        if structured { ctx.count("ssk nohash structured ids (shared low bits / shards / small integers)"); }
         ctx.begin_case(&format!("ssk nohash b={} m={} n={} extreme={}", p.0, p.1, n, ["head", "inside", "none"][c as usize % 3]));
         ctx.mark_nontrivial();
         ctx.count("ssk hasher=NoHashHasher (chosen hash values)");
